@@ -269,3 +269,119 @@ theorem getMatrix_ok (v : View) (hv : v.WF) :
     exact hrows
 
 end Gzx.Luminance
+
+namespace Gzx.Luminance
+open Gzx
+
+/-! ## Crop -/
+
+theorem range_map_drop_take {α : Type} (f : Nat → α) (n t h : Nat) (hle : t + h ≤ n) :
+    (((List.range n).map f).drop t).take h = (List.range h).map (fun y => f (y + t)) := by
+  apply List.ext_getElem?
+  intro i
+  simp only [List.getElem?_take, List.getElem?_drop, List.getElem?_map, List.getElem?_range]
+  by_cases hi : i < h
+  · have h1 : t + i < n := by omega
+    simp [hi, h1, Nat.add_comm]
+  · simp [hi]
+
+theorem sub_row (data : List Nat) (a W l w' : Nat) (h : l + w' ≤ W) :
+    (((data.drop a).take W).drop l).take w' = (data.drop (a + l)).take w' := by
+  rw [List.drop_take, List.take_take, List.drop_drop]
+  congr 1
+  omega
+
+theorem crop_baseRows (v v' : View) (l t : Nat) (hd : v'.data = v.data) (hW : v'.dataW = v.dataW)
+    (hl : v'.left = v.left + l) (ht : v'.top = v.top + t) (hw : l + v'.w ≤ v.w) (hh : t + v'.h ≤ v.h) :
+    v'.baseRows = ((v.baseRows.drop t).take v'.h).map (fun r => (r.drop l).take v'.w) := by
+  simp only [View.baseRows]
+  rw [range_map_drop_take _ _ _ _ hh, List.map_map]
+  apply List.map_congr_left
+  intro y _
+  simp only [View.baseRow, Function.comp, hd, hW, hl, ht]
+  rw [sub_row _ _ _ _ _ hw]
+  congr 2
+  have : y + t + v.top = y + (v.top + t) := by omega
+  rw [this]
+  omega
+
+theorem crop_wf (v v' : View) (hv : v.WF) (l t : Nat) (hd : v'.data = v.data) (hW : v'.dataW = v.dataW)
+    (hH : v'.dataH = v.dataH)
+    (hl : v'.left = v.left + l) (ht : v'.top = v.top + t) (hw : l + v'.w ≤ v.w) (hh : t + v'.h ≤ v.h) :
+    v'.WF := by
+  refine ⟨?_, ?_, ?_, ?_⟩
+  · rw [hd, hW, hH]; exact hv.len
+  · have := hv.horiz; rw [hl, hW]; omega
+  · have := hv.vert; rw [ht, hH]; omega
+  · rw [hd]; exact hv.bytes
+
+theorem abs_w (v : View) : v.abs.w = v.w := by unfold View.abs; split <;> rfl
+theorem abs_h (v : View) : v.abs.h = v.h := by unfold View.abs; split <;> rfl
+
+theorem abs_crop (v v' : View) (l t : Nat) (hd : v'.data = v.data) (hW : v'.dataW = v.dataW)
+    (hl : v'.left = v.left + l) (ht : v'.top = v.top + t) (hw : l + v'.w ≤ v.w) (hh : t + v'.h ≤ v.h)
+    (hi' : v'.inv = v.inv) :
+    v'.abs = v.abs.crop l t v'.w v'.h := by
+  unfold View.abs
+  have hb := crop_baseRows v v' l t hd hW hl ht hw hh
+  rw [hi']
+  by_cases hi : v.inv
+  · simp only [hi, if_true, Img.invert, Img.crop, Img.mk.injEq, true_and]
+    rw [hb]
+    simp only [List.map_drop, List.map_take, List.map_map]
+    congr 2
+    apply List.map_congr_left
+    intro r _
+    simp [Function.comp, List.map_drop, List.map_take]
+  · have hf : (false = true) = False := by simp
+    simp only [hi, hf, if_false, Img.crop, Img.mk.injEq, true_and]
+    exact hb
+
+/-- the model's Crop on a valid rectangle: succeeds, stays well-formed, keeps the kind and the
+    inversion flag, and denotes the sub-array -/
+theorem crop_valid (v : View) (hv : v.WF) (l t : Int) (w h : Nat) (hval : v.abs.ValidCrop l t w h) :
+    ∃ v', crop v l t w h = .ok v' ∧ v'.WF ∧ v'.kind = v.kind ∧ v'.inv = v.inv ∧
+      v'.abs = v.abs.crop l.toNat t.toNat w h := by
+  obtain ⟨h0, h1, h2, h3⟩ := hval
+  rw [abs_w] at h2
+  rw [abs_h] at h3
+  have hw' : l.toNat + w ≤ v.w := by omega
+  have hh' : t.toNat + h ≤ v.h := by omega
+  have hn : ¬ (l < 0 ∨ t < 0 ∨ l + w > v.w ∨ t + h > v.h) := by omega
+  unfold crop
+  simp only [hn, if_false]
+  cases hk : v.kind with
+  | yuv =>
+    simp only
+    unfold newYUV
+    have hhz := hv.horiz
+    have hvt := hv.vert
+    have hn2 : ¬ ((v.left : Int) + l < 0 ∨ (v.top : Int) + t < 0 ∨ (v.left : Int) + l + w > v.dataW ∨
+        (v.top : Int) + t + h > v.dataH) := by omega
+    simp only [hn2, if_false, Bool.false_eq_true]
+    have e1 : ((v.left : Int) + l).toNat = v.left + l.toNat := by omega
+    have e2 : ((v.top : Int) + t).toNat = v.top + t.toNat := by omega
+    refine ⟨_, rfl, ?_, rfl, rfl, ?_⟩
+    · exact crop_wf v _ hv l.toNat t.toNat rfl rfl rfl e1 e2 hw' hh'
+    · exact abs_crop v _ l.toNat t.toNat rfl rfl e1 e2 hw' hh' rfl
+  | rgb =>
+    refine ⟨_, rfl, ?_, rfl, rfl, ?_⟩
+    · exact crop_wf v _ hv l.toNat t.toNat rfl rfl rfl rfl rfl hw' hh'
+    · exact abs_crop v _ l.toNat t.toNat rfl rfl rfl rfl hw' hh' rfl
+  | img =>
+    refine ⟨_, rfl, ?_, rfl, rfl, ?_⟩
+    · exact crop_wf v _ hv l.toNat t.toNat rfl rfl rfl rfl rfl hw' hh'
+    · exact abs_crop v _ l.toNat t.toNat rfl rfl rfl rfl hw' hh' rfl
+
+/-- an invalid rectangle (negative origin, or reaching outside the view) is an
+    IllegalArgumentException — never a panic, never a view -/
+theorem crop_invalid (v : View) (l t : Int) (w h : Nat) (hinv : ¬ v.abs.ValidCrop l t w h) :
+    crop v l t w h = .error (.fault .illegalArg) := by
+  unfold Img.ValidCrop at hinv
+  rw [abs_w, abs_h] at hinv
+  have hn : (l < 0 ∨ t < 0 ∨ l + w > v.w ∨ t + h > v.h) := by omega
+  unfold crop
+  simp only [hn, if_true]
+  rfl
+
+end Gzx.Luminance
